@@ -144,6 +144,7 @@ def main():
     known = common.load_known()
     samples = []
     tie_broken = []
+    known_progs = set()
     for i, p in enumerate(progs):
         for o in p["ops"]:
             stats["ops_by_kind"][o[0]] = stats["ops_by_kind"].get(o[0], 0) + 1
@@ -174,6 +175,7 @@ def main():
             kf = match_known(known, pid, p, fails, mod)
             if kf:
                 known_hits.append(kf)
+                known_progs.add(i)
             else:
                 def bad(q):
                     rr = run_impl(q, getattr(mod, "Machine", None))
@@ -188,7 +190,7 @@ def main():
     oracle_violation = any(k == "oracle" for _, k in violations)
     for i, d in tie_broken:
         p = progs[i]
-        if any(v[0].endswith("oracle%d.json" % i) for v in violations):
+        if any(v[0].endswith("oracle%d.json" % i) for v in violations) or i in known_progs:
             continue
         found = None
         if hasattr(mod, "search_around"):
